@@ -538,11 +538,11 @@ def outer(arg1, arg2, classes=(), recursive=True):
     # Re-shape the value arrays (shape, numer1, numer2, denom1, denom2)
     shape1 = (arg1._shape_ + arg1._numer_ + arg2._nrank_ * (1,) +
               arg1._denom_ + arg2._drank_ * (1,))
-    array1 = arg1._values_.reshape(shape1)
+    array1 = np.asarray(arg1._values_).reshape(shape1)
 
     shape2 = (arg2._shape_ + arg1._nrank_ * (1,) + arg2._numer_ +
               arg1._drank_ * (1,) + arg2._denom_)
-    array2 = arg2._values_.reshape(shape2)
+    array2 = np.asarray(arg2._values_).reshape(shape2)
 
     # Construct the outer product
     new_values = array1 * array2
